@@ -310,6 +310,11 @@ func visitInstr(fr *frame, instr ssa.Instruction) continuation {
 		}
 
 	case *ssa.If:
+		if s, ok := fr.get(instr.Cond).(sym); ok && OptArith {
+			if k, done := i.ifConvert(fr, instr, s); done { // models_c35.go: opt-in state merging
+				return k
+			}
+		}
 		succ := 1
 		if i.truth(fr.get(instr.Cond)) {
 			succ = 0
